@@ -218,6 +218,24 @@ def guarded_by_call(bf, bb, suffix):
     return any(cond_mentions_call(bf, c_, suffix) and not cond_false(c_) for c_ in path_conditions(bf, bb))
 
 
+def alternatives_guarded(bf, bb, st, suffix, field):
+    """an unconditional store whose value is itself a selection (`validate(x).unwrap_or(current)`, a phi): every alternative is either
+    the field's own current value (nothing changes) or is taken only under the successful call"""
+    if st.k != 'assign' or st.rv.k != 'use':
+        return False
+    v = term_of_operand(bf, st.rv.ops[0])
+    alts = rules.value_cases(bf, v, path_conditions(bf, bb))
+    n_new = 0
+    for cv, cs in alts:
+        t = layout_peel(cv)
+        if isinstance(t, tuple) and t[:1] == ('field',) and t[2] == field:
+            continue
+        n_new += 1
+        if not any(cond_mentions_call(bf, x, suffix) and not cond_false(x) for x in cs):
+            return False
+    return n_new >= 1 and len(alts) >= 2
+
+
 def cond_implies_call_true(bf, cnd, suffix, depth=0):
     """does the branch condition (taken with its recorded polarity) hold only if a call to `suffix` returned true /
     Some / Ok? Unlike cond_mentions_call this is a must-rule: a flag that can also become true on a path that does
@@ -375,7 +393,7 @@ def flow_rules(c, res, an):
                     continue
                 bf = pf.bf(body)
                 if how == 'guard':
-                    res.require(guarded_by_call(bf, bb, what), 'C04:%s:%s-store-unguarded' % (fn, field),
+                    res.require(guarded_by_call(bf, bb, what) or alternatives_guarded(bf, bb, st, what, field), 'C04:%s:%s-store-unguarded' % (fn, field),
                                 'store to %s is not guarded by a successful %s' % (field, what), short_site(bf, bb, si), 'DOM(%s => store %s)' % (what, field),
                                 instance='%s: store to %s guarded by %s' % (fn, field, what))
                 elif how == 'value':
